@@ -21,3 +21,41 @@ package aggregation
 //@ func (*TableRow).Name
 //@   pure
 //@   trusted
+
+// ================= C07: aggregators hold the exact fold of their sample history =================
+// Step contracts: each Sample / SampleValue / SampleItem call changes exactly the cell(s) of its
+// own sample by exactly its increment and nothing else. The fold over any history follows by
+// induction on the history (each step is the fold's step function); order independence for the
+// count-style aggregators follows because the steps commute (integer addition).
+
+// ---- MatchCounter ----
+// representation invariant: every key maps to its own, live item
+//@ pred wf_counter(s) := s.matches != nil
+//@      && (forall k: str :: in_dom(s.matches, k) ==> map_get(s.matches, k) != nil && allocated(map_get(s.matches, k)))
+//@      && (forall a: str :: forall b: str :: in_dom(s.matches, a) && in_dom(s.matches, b) && a != b ==> map_get(s.matches, a) != map_get(s.matches, b))
+// cnt(s, k): the count shown for key k (0 if the key was never sampled)
+//@ pred cnt(s, k) := if in_dom(s.matches, k) then map_get(s.matches, k).count else 0
+// counters are int64: the step contracts hold while no counter leaves the int64 range
+//@ pred fits(x) := -9223372036854775808 <= x && x <= 9223372036854775807
+
+//@ func NewCounter
+//@   ensures wf_counter(result) && result.total == 0 && result.errors == 0 && (forall k: str :: !in_dom(result.matches, k))
+
+//@ func (*MatchCounter).SampleValue
+//@   requires wf_counter(s)
+//@   ensures wf_counter(s)
+//@   ensures [step] fits(old(cnt(s, element)) + count) ==> forall k: str :: cnt(s, k) == old(cnt(s, k)) + (if k == element then count else 0)
+//@   ensures [dom] forall k: str :: in_dom(s.matches, k) == (old(in_dom(s.matches, k)) || k == element)
+//@   ensures [total] (fits(old(s.total) + count) ==> s.total == old(s.total) + count) && s.errors == old(s.errors)
+
+// Sample("key") counts 1; Sample("key\x00n") counts the integer n; a non-integer n counts as a
+// parse error and changes no count.
+//@ pred fld0(e) := if str_index(e, "\x00") < 0 then e else e[0:str_index(e, "\x00")]
+//@ pred rest1(e) := e[str_index(e, "\x00") + 1:]
+//@ pred fld1(e) := e[str_index(e, "\x00") + 1 : (if str_index(rest1(e), "\x00") < 0 then len(e) else str_index(e, "\x00") + 1 + str_index(rest1(e), "\x00"))]
+//@ func (*MatchCounter).Sample
+//@   requires wf_counter(s)
+//@   ensures wf_counter(s)
+//@   ensures [plain] str_index(element, "\x00") < 0 && fits(old(cnt(s, element)) + 1) && fits(old(s.total) + 1) ==> (forall k: str :: cnt(s, k) == old(cnt(s, k)) + (if k == element then 1 else 0)) && s.errors == old(s.errors) && s.total == old(s.total) + 1
+//@   ensures [valued] str_index(element, "\x00") >= 0 && int_ok(fld1(element)) && fits(old(cnt(s, fld0(element))) + atoi(fld1(element))) && fits(old(s.total) + atoi(fld1(element))) ==> (forall k: str :: cnt(s, k) == old(cnt(s, k)) + (if k == fld0(element) then atoi(fld1(element)) else 0)) && s.errors == old(s.errors) && s.total == old(s.total) + atoi(fld1(element))
+//@   ensures [parse-error] str_index(element, "\x00") >= 0 && !int_ok(fld1(element)) && old(s.errors) < 18446744073709551615 ==> (forall k: str :: cnt(s, k) == old(cnt(s, k))) && s.errors == old(s.errors) + 1 && s.total == old(s.total)
